@@ -74,6 +74,10 @@ func runConfigTier(out *hutil.Out) {
 		{"list", map[string]any{"type": "o", "list": []any{map[string]any{"type": "n", "v": 2}, map[string]any{"type": "n"}}}, "A=1 B=default item=2 item=1"},
 		{"nested-factory", map[string]any{"type": "o", "make": map[string]any{"type": "n", "v": 5}}, "A=1 B=default made=true/<nil>"},
 		{"factory-ctor-nested", map[string]any{"type": "of", "a": 4, "nested": map[string]any{"type": "n", "v": 9}}, "A=4 B=default nested=9"},
+		// the key that names the plugin is matched without regard to letter case
+		{"plain-Type", map[string]any{"Type": "o", "a": 7}, "A=7 B=default"},
+		{"nested-TYPE", map[string]any{"type": "o", "b": "x", "nested": map[string]any{"TYPE": "n", "v": 3}}, "A=1 B=x nested=3"},
+		{"list-Type", map[string]any{"TYPE": "o", "list": []any{map[string]any{"Type": "n", "v": 2}, map[string]any{"type": "n"}}}, "A=1 B=default item=2 item=1"},
 	}
 	for _, c := range confs {
 		for _, form := range []string{"plugin", "factory", "factory-err"} {
